@@ -331,6 +331,55 @@ pub fn exec_with(src: &str, budget: Budget) -> Exec {
     Exec { outcome, report, stack_used }
 }
 
+/// Size of the stack region painted below the caller by `exec_painted`.
+pub const PAINT_BYTES: usize = 2 << 20;
+
+/// Like `exec`, and measures the native stack the call used by *painting*: the region of this
+/// thread's stack below the current frame is filled with a pattern before the call and scanned
+/// afterwards for the lowest byte that changed. Unlike the hook-based measure this also sees
+/// frames of helper functions that never reach a hook (look-ahead on a cloned iterator, parsers
+/// of dependencies). Only on harness worker threads (64 MiB stacks, fully mapped); not under Miri.
+#[cfg(not(miri))]
+#[inline(never)]
+pub fn exec_painted(src: &str) -> Exec {
+    const SKIP: usize = 4096; // room for this function's own frame and the call sequence
+    let probe = 0u8;
+    let here = std::ptr::addr_of!(probe) as usize;
+    let top = (here - SKIP) & !7usize;
+    let bottom = top - PAINT_BYTES;
+    // paint
+    let mut a = bottom;
+    while a < top {
+        // SAFETY (in practice): the addresses lie in the mapped, currently unused part of this
+        // thread's own stack, below every live frame
+        unsafe { std::ptr::write_volatile(a as *mut u64, 0xA5A5_5A5A_A5A5_5A5Au64) };
+        a += 8;
+    }
+    let mut ex = exec_inner_for_paint(src);
+    // scan from the low end for the first word that changed
+    let mut a = bottom;
+    while a < top {
+        if unsafe { std::ptr::read_volatile(a as *const u64) } != 0xA5A5_5A5A_A5A5_5A5Au64 {
+            break;
+        }
+        a += 8;
+    }
+    let painted_used = if a >= top { 0 } else { here - a };
+    ex.stack_used = ex.stack_used.max(painted_used);
+    ex
+}
+
+#[cfg(not(miri))]
+#[inline(never)]
+fn exec_inner_for_paint(src: &str) -> Exec {
+    exec(src)
+}
+
+#[cfg(miri)]
+pub fn exec_painted(src: &str) -> Exec {
+    exec(src)
+}
+
 /// Plain call without hooks armed (hooks stay disarmed => pure pass-through), panics caught.
 pub fn exec_plain(src: &str) -> Result<LexResult, String> {
     install_panic_hook();
